@@ -394,7 +394,7 @@ SUBCHECKS = [
                   "captured integration cells vs reference midpoint cells, rates vs quadrature, sum vs reported "
                   "intensity, three routes to a state's rate; non-trivial = refined or non-uniform grid or CGMY "
                   "special branch",
-             strategy=strat_1d, budget={"quick": 130, "thorough": 1600},
+             strategy=strat_1d, budget={"quick": 390, "thorough": 1600},
              shards={"quick": 16, "thorough": 16}),
     SubCheck("rates-copula", body_copula, classify_copula,
              rule="copula (Clayton incl. eta in {0,1}, independent, dependent) x d in {2,3} x margins x small "
@@ -407,6 +407,6 @@ SUBCHECKS = [
              rule="Clayton d=2 with absolutely continuous margins: library mass of an off-axis rectangle in a "
                   "drawn orthant vs dblquad of the joint density d2F/du1du2(U1,U2) nu1 nu2 (also validates the "
                   "harness reference mass)",
-             strategy=strat_density, budget={"quick": 32, "thorough": 600},
+             strategy=strat_density, budget={"quick": 96, "thorough": 600},
              shards={"quick": 4, "thorough": 16}),
 ]
